@@ -238,6 +238,29 @@ def r_entry_sibling(ck: Checker) -> None:
                         out += [("via " + c.func.id + "(" + ", ".join(norm(a) for a in c.args) + ")",)] + hl
         return out
 
+    # rejections decided before the text is parsed at all: an entry point that has one the other lacks disagrees with it on some text
+    def early_rejections(fn_: Func) -> list[str]:
+        out: list[str] = []
+        p0 = [a.arg for a in fn_.node.args.args if a.arg not in ("self", "cls")][0]
+        for st in fn_.node.body:
+            if isinstance(st, ast.Try):
+                break
+            for iff in [n for n in ast.walk(st) if isinstance(n, ast.If)]:
+                for r in [x for x in walk_body(iff.body) if isinstance(x, ast.Return) and isinstance(x.value, ast.Tuple) and x.value.elts]:
+                    first = x_ = r.value.elts[0]
+                    if isinstance(first, ast.Constant) and first.value in (None, False):
+                        out.append(norm(iff.test).replace(p0, "<text>"))
+        return out
+
+    ev_, ef_ = early_rejections(v), early_rejections(f)
+    what_e = "validate_pattern and NodeMatcher.from_pattern reject the same texts before parsing (none, or the same test)"
+    if sorted(ev_) != sorted(ef_):
+        only = [t_ for t_ in ef_ if t_ not in ev_] or [t_ for t_ in ev_ if t_ not in ef_]
+        who = "NodeMatcher.from_pattern" if [t_ for t_ in ef_ if t_ not in ev_] else "validate_pattern"
+        ck.violation("R-ENTRY-SIBLING", f, f.node, what_e, construct=f"{who} rejects a text when `{only[0][:70]}` without parsing it; the other entry point has no such test "
+                     "(the two disagree, e.g. on text with surrounding whitespace)")
+    else:
+        ck.holds("R-ENTRY-SIBLING", f, f.node, what_e)
     lv, lf = ladder_of(v), ladder_of(f)
     what = "validate_pattern and NodeMatcher.from_pattern have the same ladder: same guarded calls, same handler types, same rejection messages"
     if lv == lf and len(lv) >= 2:
@@ -427,6 +450,50 @@ def r_var_order(ck: Checker) -> None:
         ck.holds("R-VAR-ORDER", f, f.node, what, evaluations=len(leaves), named_paths=n_named)
 
 
+ONE_SHOT = ("reversed", "iter", "map", "filter", "zip", "enumerate", "chain", "itertools.chain", "islice", "itertools.islice")
+
+
+def r_reusable(ck: Checker, modname: str = XP, cls: str = "ASTXpath", rule: str = "R-XP-ELEMENTS") -> None:
+    """What __init__ stores on the compiled object is used by every later call: a one-shot iterator (reversed(), map(), a generator
+    expression ...) is exhausted by the first one."""
+    init = ck.repo.func(modname, f"{cls}.__init__")
+    what = f"{cls}: the state kept by __init__ can be iterated by every later findall / match (no one-shot iterator is stored)"
+    stored: dict[str, ast.expr] = {}
+    for st in walk_body(init.node.body):
+        if isinstance(st, ast.Assign) and len(st.targets) == 1 and isinstance(st.targets[0], ast.Attribute) and norm(st.targets[0].value) == "self":
+            v = st.value
+            if isinstance(v, ast.GeneratorExp) or (isinstance(v, ast.Call) and dotted(v.func) in ONE_SHOT):
+                stored[st.targets[0].attr] = v
+    for g in ck.repo.functions([ck.repo.mod(modname)]):
+        if g.cls is None or g.cls.name != cls or g.qualname.endswith(".__init__"):
+            continue
+        for n in ast.walk(g.node):
+            its = [n.iter] if isinstance(n, (ast.For, ast.comprehension)) else []
+            for it in its:
+                if isinstance(it, ast.Attribute) and norm(it.value) == "self" and it.attr in stored:
+                    ck.violation(rule, init, init.node, what, construct=f"{cls}.__init__ stores self.{it.attr} = {norm(stored[it.attr])[:50]} (a one-shot iterator) and "
+                                 f"{g.qualname} iterates it: the second call on the same compiled object sees nothing")
+                    return
+    ck.holds(rule, init, init.node, what)
+
+
+def r_unquote(ck: Checker) -> None:
+    """The regex of a string literal is the token text without its first and last character (the quotes): stripping quote characters
+    also eats an escaped quote at the end of the regex."""
+    f = ck.repo.func(PAT, "PatternDefInterpreter.value")
+    what = "PatternDefInterpreter.value: the regex of a string literal is the token without exactly its enclosing quotes"
+    strips = [c for c in ast.walk(f.node) if isinstance(c, ast.Call) and isinstance(c.func, ast.Attribute) and c.func.attr in ("strip", "lstrip", "rstrip", "removeprefix", "removesuffix", "replace")
+              and c.args and isinstance(c.args[0], ast.Constant) and isinstance(c.args[0].value, str) and ("\"" in c.args[0].value or "'" in c.args[0].value)]
+    slices = [n for n in ast.walk(f.node) if isinstance(n, ast.Subscript) and isinstance(n.slice, ast.Slice) and norm(n.slice) == "1:-1"]
+    if strips and strips[0].func.attr in ("strip", "lstrip", "rstrip"):
+        ck.violation("R-GRAM-EXH", f, strips[0], what, construct=f"value: the literal is unquoted with {norm(strips[0])[:50]}: every quote character at the ends is removed, "
+                     "so a regex that ends in an escaped quote loses it and no longer compiles / means something else")
+    elif slices:
+        ck.holds("R-GRAM-EXH", f, slices[0], what)
+    else:
+        raise Unsupported("PatternDefInterpreter.value: how the string literal is unquoted was not recognised", f.node)
+
+
 def mutable_globals(ck: Checker) -> dict[str, set[str]]:
     out: dict[str, set[str]] = {}
     for m in ck.repo.mods.values():
@@ -503,6 +570,8 @@ def run(ck: Checker) -> None:
     ck.guard("R-ENTRY-SIBLING", lambda: r_entry_sibling(ck))
     ck.guard("R-GRAM-EXH", lambda: r_gram_exh(ck))
     ck.guard("R-VAR-ORDER", lambda: r_var_order(ck))
+    ck.guard("R-GRAM-EXH", lambda: r_unquote(ck))
+    ck.guard("R-XP-ELEMENTS", lambda: r_reusable(ck))
     ck.guard("R-POSTINIT-IDEMP", lambda: r_postinit_idemp(ck))
     from .c07 import r_xp_elements
     ck.guard("R-XP-ELEMENTS", lambda: r_xp_elements(ck))
